@@ -301,8 +301,8 @@ def schema(grammar, rnd, n, numeric_nts=(), with_numeric=True):
                    SMT(A("=", V(x), V(y))),
                    SMT(A(rnd.choice(["<", "<=", "="]), A("str.len", V(x)), A("str.len", V(y)))),
                    PRED("nth", rnd.choice([1, 2]), x, y), PRED("nth", rnd.choice([1, 2]), y, x),
-                   PRED("level", ("s", rnd.choice(["EQ", "GE", "LE", "GT", "LT"])), ("s", rnd.choice(nts)), x, y),
-                   PRED("consecutive", x, y)]
+                   PRED("level", ("s", rnd.choice(["EQ", "GE", "LE", "GT", "LT"])), ("s", rnd.choice(nts)), x, y)]
+        # `consecutive` is documented for pairs of leaves only; quantified variables denote inner nodes, so it is not generated here
         return rnd.choice(choices)
 
     def matrix(vs):
